@@ -219,6 +219,13 @@ def check_inv_addr_ping(ctx, oid="C17.5"):
 
 def run(ctx):
     check_recv(ctx)
+    # no hidden state: the functions this property is about (and what they call) do not write module-level state, so a
+    # verdict cannot depend on the history of earlier calls
+    hs = rules.hidden_state(ctx.prog, [ctx.fn(q) for q in ("bits.p2p.recv_msg", "bits.p2p.msg_ser", "bits.p2p.parse_payload")])
+    ctx.R.check("C17.1", "OWN", ctx.fn("bits.p2p.recv_msg"), "no module-level state is written on these paths (results do not depend on earlier calls)", not hs,
+            "%s %s" % ((hs[0][0].qualname, hs[0][2]) if hs else ("", "")), line=hs[0][1].lineno if hs else None,
+            example="the same call repeated in one process after a call with other arguments / a failed call")
+
     check_msg_ser(ctx)
     check_version_codec(ctx)
     check_getheaders_codec(ctx)
